@@ -357,6 +357,14 @@ impl PhoneticSuggestion {
     }
 }
 
+/// Verification hook (feature `verif-hooks`): read-only view of the first-letter table.
+#[cfg(feature = "verif-hooks")]
+impl PhoneticSuggestion {
+    pub(crate) fn verif_tables_for(&self, letter: &str) -> Vec<&'static str> {
+        self.table.get(letter).copied().unwrap_or_default().to_vec()
+    }
+}
+
 // Implement Default trait on PhoneticSuggestion, actually for testing convenience.
 impl Default for PhoneticSuggestion {
     fn default() -> Self {
